@@ -457,4 +457,22 @@ theorem roundUps_pairwise (R : Rnd κ η) (hc : Lawful R.cfg) (last ridx : Nat) 
   · have := ((hu a.id).mp ((mem_roundUps R last ridx l r a).mp ha).2.2).1
     rw [h.1] at this; cases this
 
+
+/-! ### stale batch reads -/
+
+theorem roundFinalStale_eq (R : Rnd κ η) (guard : Bool) (ov : List (κ × Option (Item κ η))) (cre : κ → Nat)
+    (last ridx : Nat) (l r : List (Item κ η)) (hnd : staleDetected R guard ov cre last ridx l r = false) :
+    roundFinalStale R guard ov cre last ridx l r =
+      afterWrites R.fold l (roundDels R last ridx l r) (roundUpsStale R ov last ridx l r) := by
+  unfold roundFinalStale roundOpsStale afterWrites
+  simp only [hnd, Bool.false_eq_true, if_false]
+  rw [List.foldl_append, foldl_execOp_del, foldl_execOp_ups, batches_flatten, batches_flatten]
+
+theorem roundFinalStale_detected (R : Rnd κ η) (guard : Bool) (ov : List (κ × Option (Item κ η))) (cre : κ → Nat)
+    (last ridx : Nat) (l r : List (Item κ η)) (hd : staleDetected R guard ov cre last ridx l r = true) :
+    roundOpsStale R guard ov cre last ridx l r = [] ∧ roundFinalStale R guard ov cre last ridx l r = l ∧
+      roundRetStale R guard ov cre last ridx l r = none := by
+  unfold roundFinalStale roundOpsStale roundRetStale
+  simp [hd]
+
 end CV.Repl
